@@ -23,7 +23,8 @@ Import ListNotations.
 
 (* which protocols (ranks) registered a push updater / a keyboard instance *)
 (* sraise: protocols whose push updater's stop() raises (fault while tearing the protocol down) *)
-Record cfg := { regs : list nat; kregs : list nat; sraise : list nat }.
+(* aregs: protocols that registered an Audio instance *)
+Record cfg := { regs : list nat; kregs : list nat; sraise : list nat; aregs : list nat }.
 
 Inductive qitem :=
   | QPlay (p s : nat)      (* FacadePushUpdater.playstatus_update(updater p, s) *)
@@ -36,7 +37,7 @@ Inductive out :=
   | DPlay (p s : nat) | DErr (p : nat)
   | DVol (o n : nat) | DDev (o n : nat) | DFocus (o n : nat).
 
-Inductive res := ROk | RBlocked | RInvalid | RRaise.
+Inductive res := ROk | RBlocked | RInvalid | RRaise | RNotSup.
 
 Record st := {
   prev : nat -> option nat;       (* _previous_state of protocol p's updater *)
@@ -46,12 +47,16 @@ Record st := {
   ktake : option nat;             (* takeover holder of the Keyboard relayer *)
   blocked : bool;
   vol : nat; dev : nat; foc : nat;
-  queue : list qitem
+  queue : list qitem;
+  alev : nat -> nat               (* volume level held by protocol p's Audio instance (unit: one
+                                     volume step of 5 percent, 0..20) *)
 }.
+
+Definition max_level : nat := 20.
 
 Definition init : st :=
   {| prev := fun _ => None; lis := fun _ => false; fwd := false; take := None; ktake := None;
-     blocked := false; vol := 0; dev := 0; foc := 0; queue := [] |}.
+     blocked := false; vol := 0; dev := 0; foc := 0; queue := []; alev := fun _ => 0 |}.
 
 Definition memb (x : nat) (l : list nat) : bool := existsb (Nat.eqb x) l.
 
@@ -72,23 +77,27 @@ Fixpoint stop_all (bad r : list nat) (f : nat -> bool) : (nat -> bool) * bool :=
 
 Definition enqueue (s : st) (q : qitem) : st :=
   {| prev := prev s; lis := lis s; fwd := fwd s; take := take s; ktake := ktake s;
-     blocked := blocked s; vol := vol s; dev := dev s; foc := foc s; queue := queue s ++ [q] |}.
+     blocked := blocked s; vol := vol s; dev := dev s; foc := foc s; queue := queue s ++ [q]; alev := alev s |}.
 
 Definition set_prev (s : st) (f : nat -> option nat) : st :=
   {| prev := f; lis := lis s; fwd := fwd s; take := take s; ktake := ktake s;
-     blocked := blocked s; vol := vol s; dev := dev s; foc := foc s; queue := queue s |}.
+     blocked := blocked s; vol := vol s; dev := dev s; foc := foc s; queue := queue s; alev := alev s |}.
 
 Definition set_push (s : st) (l : nat -> bool) (f : bool) (b : bool) : st :=
   {| prev := prev s; lis := l; fwd := f; take := take s; ktake := ktake s;
-     blocked := b; vol := vol s; dev := dev s; foc := foc s; queue := queue s |}.
+     blocked := b; vol := vol s; dev := dev s; foc := foc s; queue := queue s; alev := alev s |}.
 
 Definition set_takes (s : st) (t k : option nat) : st :=
   {| prev := prev s; lis := lis s; fwd := fwd s; take := t; ktake := k;
-     blocked := blocked s; vol := vol s; dev := dev s; foc := foc s; queue := queue s |}.
+     blocked := blocked s; vol := vol s; dev := dev s; foc := foc s; queue := queue s; alev := alev s |}.
 
 Definition set_vals (s : st) (v d f : nat) (q : list qitem) : st :=
   {| prev := prev s; lis := lis s; fwd := fwd s; take := take s; ktake := ktake s;
-     blocked := blocked s; vol := v; dev := d; foc := f; queue := q |}.
+     blocked := blocked s; vol := v; dev := d; foc := f; queue := q; alev := alev s |}.
+
+Definition set_alev (s : st) (a : nat -> nat) : st :=
+  {| prev := prev s; lis := lis s; fwd := fwd s; take := take s; ktake := ktake s;
+     blocked := blocked s; vol := vol s; dev := dev s; foc := foc s; queue := queue s; alev := a |}.
 
 Definition get_take (s : st) (i : iface) : option nat :=
   match i with IPush => take s | IKbd => ktake s end.
@@ -128,6 +137,19 @@ Fixpoint drain (c : cfg) (s : st) (l : list qitem) : st * list out :=
               let '(s2, o2) := drain c s1 t in (s2, o1 ++ o2)
   end.
 
+(* FacadeAudio.set_volume / volume_up / volume_down (guarded): relayed to the Audio instance of
+   highest priority, which applies the new level f(current) and announces it -
+   state_dispatcher.dispatch(UpdatedState.Volume, level), as RAOP, MRP and Companion do.  The
+   facade itself does NOT touch its cached volume: only _volume_changed does, when the
+   announcement is delivered. *)
+Definition user_vol (c : cfg) (s : st) (f : nat -> nat) : st * list out * res :=
+  if blocked s then (s, [], RBlocked)
+  else match main_of (aregs c) None with
+       | None => (s, [], RNotSup)
+       | Some m => let v := f (alev s m) in
+                   (enqueue (set_alev s (upd (alev s) m v)) (QVol v), [], ROk)
+       end.
+
 Definition step (c : cfg) (s : st) (o : op) : st * list out * res :=
   match o with
   | Post p x =>
@@ -151,7 +173,11 @@ Definition step (c : cfg) (s : st) (o : op) : st * list out * res :=
                                                          before anything else is torn down or blocked *)
   | Take p l => let '(s', r) := takeover s p l [] in (s', [], r)
   | Rel l => (fold_left (fun a j => put_take a j None) l s, [], ROk)
-  | DispVol p v => (enqueue s (QVol v), [], ROk)
+  | DispVol p v =>                               (* device-side change seen by protocol p *)
+      (enqueue (if memb p (aregs c) then set_alev s (upd (alev s) p v) else s) (QVol v), [], ROk)
+  | SetVol v => user_vol c s (fun _ => v)
+  | VolUp => user_vol c s (fun a => Nat.min (S a) max_level)
+  | VolDown => user_vol c s (fun a => a - 1)
   | DispDev p v => (enqueue s (QDev v), [], ROk)
   | DispFocus p v =>
       if opt_eqb (main_of (kregs c) (ktake s)) (Some p) then (enqueue s (QFocus v), [], ROk)
@@ -193,7 +219,7 @@ Definition out_eqb (a b : out) : bool :=
   end.
 Definition res_eqb (a b : res) : bool :=
   match a, b with
-  | ROk, ROk | RBlocked, RBlocked | RInvalid, RInvalid | RRaise, RRaise => true
+  | ROk, ROk | RBlocked, RBlocked | RInvalid, RInvalid | RRaise, RRaise | RNotSup, RNotSup => true
   | _, _ => false
   end.
 Definition rec_eqb (a b : list out * res) : bool :=
